@@ -162,10 +162,10 @@ func runOne(out *vh.Out, si int, sc Script) {
 		l := &lst{}
 		conf := &config.ThermalThrottler{Activate: true, BucketSize: time.Duration(cfg.BucketS) * time.Second,
 			MinRefill: time.Duration(cfg.K*minFrames) * time.Millisecond}
-		th := throttle.NewThrottledRecorderWithClock(b, conf, minLenS, l, c, cam)
-		t := &tap{th: th, b: b, l: l, c: c, out: out, last: c.now}
 		// the configuration in the property's terms
 		out.Emit(map[string]interface{}{"ev": "new", "script": si, "mode": sc.Mode, "Cap": cfg.BucketS * cfg.Fps, "MinLen": minFrames, "K": cfg.K})
+		th := throttle.NewThrottledRecorderWithClock(b, conf, minLenS, l, c, cam)
+		t := &tap{th: th, b: b, l: l, c: c, out: out, last: c.now}
 		if sc.Mode == "proc" {
 			w, _ := window.New("12:00", "12:00", 0, 0)
 			rc := &recorder.RecorderConfig{MinSecs: cfg.Min, MaxSecs: cfg.Max, PreviewSecs: cfg.Preview, Window: *w}
@@ -197,7 +197,8 @@ func runOne(out *vh.Out, si int, sc Script) {
 			return
 		}
 		f := cptvframe.NewFrame(cam)
-		bg := cptvframe.NewFrame(cam)
+		bgs := []*cptvframe.Frame{cptvframe.NewFrame(cam), cptvframe.NewFrame(cam), cptvframe.NewFrame(cam)}
+		nstart := 0
 		upOpen := false
 		for _, st := range sc.Steps {
 			b.startOK = st.Ok == nil || *st.Ok
@@ -209,7 +210,9 @@ func runOne(out *vh.Out, si int, sc Script) {
 				if upOpen {
 					continue
 				}
-				if err := t.StartRecording(bg, uint16(7+si%5)); err == nil {
+				// every trigger has its own background frame and threshold
+				nstart++
+				if err := t.StartRecording(bgs[nstart%len(bgs)], uint16(100+nstart)); err == nil {
 					upOpen = true
 				}
 			case "w":
